@@ -197,7 +197,7 @@ func (h *Hub) Run() {
 				// Unlink from every room before closing the channel: Room.Broadcast
 				// sends under the room lock, so closing first let a concurrent room
 				// broadcast send on a closed channel and panic.
-				h.roomManager.RemoveConnectionFromAllRooms(conn)
+				conn.leaveAllRooms()
 				conn.closeSend()
 				h.metrics.DecrementConnections()
 				h.metrics.UnregisterConnection(conn.ID)
@@ -248,7 +248,7 @@ func (h *Hub) Run() {
 				case conn.send <- message:
 				default:
 					delete(h.connections, conn)
-					h.roomManager.RemoveConnectionFromAllRooms(conn)
+					conn.leaveAllRooms()
 					conn.closeSend()
 				}
 			}
